@@ -366,7 +366,25 @@ CHECKS["C19"] = {
     "level_note": _WALLET_NOTE + "Output derivation for the oracle uses the repository's nut13 code (fast) cross-checked against harness/ref for the first counters of every keyset; C11 establishes their equality in general.",
     "assumptions": ["restore scans are compared up to stored counter + 400"],
     "units": [
-        rapid("history", "^TestHistory$", 128, 1500, qs=16, ts=16, qtimeout=1500, ttimeout=5000),
+        rapid("history", "^TestHistory$", 96, 1500, qs=12, ts=16, qtimeout=1500, ttimeout=5000),
+        rapid("deep", "^TestDeep$", 12, 320, qs=12, ts=16, qtimeout=1500, ttimeout=5000),
+        {"name": "crash", "kind": "rapid", "run": "^TestCrash$", "quick": {"checks": 8, "shards": 8, "timeout": 1500}, "thorough": {"checks": 16, "shards": 16, "timeout": 3000}},
+    ],
+}
+
+CHECKS["C18"] = {
+    "pkg": "./checks/c18",
+    "level": "exploration",
+    "technique": "property-based testing (rapid) of Wallet.Send over constructed wallet contents with an independent fee computation and a real recipient redeeming the token",
+    "rule": ("wallet contents are constructed, not searched for: the helper mints random multisets of 1..36 proofs of denominations 1..512 on 1..3 keysets of one mint (rotations; input_fee_ppk per keyset drawn from {0,100,250,500,1000,2000}) and stores them through the wallet's inner storage handle; amount drawn from [1, balance] with the small and the near-balance ends over-weighted; includeFees on/off. "
+             "oracle on success: value of the returned proofs = amount, or amount + ceil(sum ppk of those very proofs / 1000) with fees; proofs pairwise distinct, UNSPENT at the mint, gone from the spendable set, balance reduced; a second real wallet Receives exactly these proofs and nets sent value - mint fee, = amount when fees were included. "
+             "success is required whenever amount + fee(all proofs held) + fee(64 active-keyset inputs) <= balance (a deliberately conservative reading of the statement). "
+             "non-trivial: a send that needed a swap, or wallet contents across >=2 keysets, with a fee > 0; distinct = (contents, amount, flags)."),
+    "level_text": "Generated wallet contents, amounts and fee configurations against the real Wallet.Send, mint and a real recipient wallet; the fee the mint will charge is recomputed independently from the keyset table.",
+    "level_note": _WALLET_NOTE + "Fee formula from harness/ref (NUT-02).",
+    "assumptions": ["one mint per case; contents up to 36 proofs"],
+    "units": [
+        rapid("send", "^TestSend$", 640, 25000, qs=8, ts=16, ttimeout=5000),
     ],
 }
 
